@@ -117,18 +117,24 @@ DIRECTED = [
          script=ends("p1:1") + ["w@bsp.worker.dequeued:p1:1", "w@bsp.worker.appended:p1:1"] + ends("p1:2", "p1:3") +
          ["f1@call", "f1@bsp.ff.checked", "x@exp.begin", "f1@bsp.ff.marker", "s1@call"]),
     # ---- caller contexts
-    # D5: Shutdown's ctx expires while the worker is held in the exporter: it returns ctx.Err(); a second Shutdown
-    # returns nil at once; the drain then exports the queued span after both have returned
-    dict(name="D5-expired-shutdown", producers=1, spansPer=2, qcap=4, maxbatch=1, flushers=0, stoppers=2, ctx={"s1": "cancel"},
+    # D5: Shutdown's ctx expires while the worker is held in the exporter: it returns ctx.Err(); the drain then
+    # exports the queued span after it has returned
+    dict(name="D5-expired-shutdown", producers=1, spansPer=2, qcap=4, maxbatch=1, flushers=0, stoppers=1, ctx={"s1": "cancel"},
          script=ends("p1:1", "p1:2") + ["w@bsp.worker.dequeued:p1:1", "w@bsp.worker.appended:p1:1", "s1@call",
-                                        "s1@ctx.expire/s1@bsp.sd.stopped", "s1@bsp.sd.stopped", "s2@call", "x@exp.begin"]),
+                                        "s1@ctx.expire/s1@bsp.sd.stopped", "s1@bsp.sd.stopped", "s1@ret", "x@exp.begin"]),
+    # D7: ... and a second Shutdown returns nil at once, before the drain has handed the queued span over
+    dict(name="D7-second-shutdown-nil", producers=1, spansPer=2, qcap=4, maxbatch=1, flushers=0, stoppers=2, ctx={"s1": "cancel"},
+         script=ends("p1:1", "p1:2") + ["w@bsp.worker.dequeued:p1:1", "w@bsp.worker.appended:p1:1", "s1@call",
+                                        "s1@ctx.expire/s1@bsp.sd.stopped", "s1@bsp.sd.stopped", "s2@call", "s2@ret",
+                                        "x@exp.begin"]),
     # D6: ForceFlush whose ctx becomes done after the stopped check: when the marker select takes the ctx
     # exit the batch is exported as it is; if that (empty) export finishes first ForceFlush returns nil although
     # the two queued spans were not handed over (two coin flips of Go's select per flusher)
     dict(name="D6-flush-ctx-done-before-marker", producers=1, spansPer=2, qcap=8, maxbatch=8, flushers=4, stoppers=1,
          exportTimeoutMs=0, slowDoneUs=400, ctx={"f1": "cancel", "f2": "cancel", "f3": "cancel", "f4": "cancel"},
          script=ends("p1:1", "p1:2") +
-         sum([["f%d@call" % i, "f%d@ctx.expire/f%d@bsp.ff.checked" % (i, i), "f%d@bsp.ff.checked" % i] for i in (1, 2, 3, 4)], []) +
+         sum([["f%d@call" % i, "f%d@ctx.expire/f%d@bsp.ff.checked" % (i, i), "f%d@bsp.ff.checked" % i, "f%d@ret" % i]
+              for i in (1, 2, 3, 4)], []) +
          ["s1@call", "w@bsp.worker.dequeued:p1:1"]),
     # ForceFlush's ctx expires while it waits for its marker (worker held in the exporter): returns ctx.Err(),
     # promises nothing; the marker stays queued and is discarded by the worker later
@@ -164,6 +170,7 @@ DIRECTED = [
 # what each known-deviation schedule is expected to exhibit (binding of the gates; a note, never a verdict)
 EXPECT = {"D1-flush-during-shutdown": "flush-missed-during-shutdown", "D4-enqueue-after-drain": "shutdown-missed-raced",
           "end-after-drain-blocking": "shutdown-missed-raced", "D5-expired-shutdown": "export-after-expired-shutdown",
+          "D7-second-shutdown-nil": "shutdown-nil-while-expired-drain-runs",
           "D6-flush-ctx-done-before-marker": "flush-missed-ctx-done-no-marker"}
 
 
@@ -183,7 +190,7 @@ def run(ctx):
     fam = [((2, 1, 1, 1, False, 1, 1), {}), ((2, 1, 1, 1, True, 1, 1), {}), ((2, 1, 2, 2, False, 1, 2), {}),
            ((3, 1, 2, 1, False, 0, 1), {}),
            # caller contexts that expire (ForceFlush f1 / Shutdown s1), with and without an export timeout
-           ((1, 2, 1, 1, False, 1, 1), dict(expiring=("f1", "s1"), cov=True)),
+           ((1, 2, 1, 2, False, 1, 1), dict(expiring=("f1", "s1"), cov=True)),
            ((1, 2, 1, 1, False, 0, 2), dict(expiring=("s1",), cov=True)),
            ((2, 1, 1, 1, True, 1, 1), dict(expiring=("f1",), et=False))]
     if thorough:
@@ -208,7 +215,8 @@ def run(ctx):
     # TLC must find each known deviation when it is not admitted (guards against a vacuous contract)
     found = {}
     for inv, c, kw in (("NoD1", (2, 1, 2, 2, False, 1, 1), {}), ("NoD4", (1, 1, 2, 2, False, 0, 2), {}),
-                       ("NoD5", (1, 2, 1, 1, False, 0, 2), dict(expiring=("s1",))),
+                       ("NoD5", (1, 2, 1, 1, False, 0, 1), dict(expiring=("s1",))),
+                       ("NoD7", (1, 2, 1, 1, False, 0, 2), dict(expiring=("s1",))),
                        ("NoD6", (1, 1, 1, 1, False, 1, 1), dict(expiring=("f1",)))):
         r = ctx.tlc(S, "MC_BSP", "MC_BSP.cfg", defines=mc_defs(*c, inv=inv, **kw), name="mc-" + inv.lower(),
                     must_pass=False, count=False, timeout=600)
